@@ -393,6 +393,7 @@ func (m *MemMapFs) Stat(name string) (os.FileInfo, error) {
 
 func (m *MemMapFs) Chmod(name string, mode os.FileMode) error {
 	mode &= chmodBits
+	name = normalizePath(name)
 
 	m.mu.RLock()
 	f, ok := m.getData()[name]
